@@ -262,6 +262,16 @@ Proof.
   rewrite E. rewrite map_map. apply map_ext. intros p. rewrite map_map. reflexivity.
 Qed.
 
+(* print_S prints func of the entries of the named matrix: same labels, same rows and columns as S2PD *)
+Theorem print_S_src_is_s2pd (m : smodel K) (order : list nat) (func : K -> K) :
+  print_S_src m order func = (fst (s2pd_src m order), map (map func) (snd (s2pd_src m order))).
+Proof.
+  unfold print_S_src, s2pd_src. cbv zeta. cbn [fst snd].
+  set (L := map (fun i => nth i (map (sm_idx m) (sm_pins m)) 0%nat) order). f_equal.
+  symmetry. rewrite (map_map (fun I => map (fun J => sm_S m I J) L) (map func)).
+  apply map_ext. intros I. apply map_map.
+Qed.
+
 End ReadoutSrc.
 Print Assumptions get_A_src_is_get_A.
 Print Assumptions get_T_src_is_get_T.
@@ -273,3 +283,4 @@ Print Assumptions get_full_data_src_is_get_A.
 Print Assumptions param_columns_src_spec.
 Print Assumptions param_columns_src_one.
 Print Assumptions s2pd_src_is_get_A.
+Print Assumptions print_S_src_is_s2pd.
